@@ -23,7 +23,7 @@ WideFz == {Q(k, 2) : k \in -4..4}
 Halves == {Q(k, 2) : k \in -4..4}
 Ints == {R(k) : k \in -2..2}
 RawF == {Q(k, 2) : k \in -4..8}
-RawI == {R(k) : k \in -2..4}
+RawI == {R(k) : k \in -2..4} \cup {R(100000), R(100001), R(100002)}      \* (large neighbouring category codes: a lookup is by equality, not closeness)
 Small == {R(-1), R(0), R(1), R(2), R(4)}
 OptMV(S) == IF WithMV THEN S \cup {MV} ELSE S
 ArraysOf(kind, S) == {<<kind, c>> : c \in [1..LenA -> OptMV(S)]}
@@ -32,7 +32,10 @@ FzArrays == ArraysOf("f", IF Wide THEN WideFz ELSE Quarter)
 ArArrays == ArraysOf("f", Halves) \cup ArraysOf("i", Ints)
 CvcArrays == ArraysOf("f", RawF) \cup ArraysOf("i", RawI)
 TwoDistinct(a) == NDistinct(Valid(Cells(a))) >= 2
-CvaArrays == {a \in ArraysOf("f", Small) \cup ArraysOf("i", Small) : TwoDistinct(a)}
+\* longer arrays whose standard deviation is rational and whose z scores are not all +-1 (-1, -1/3, -1/3, 5/3): they tell apart z-score thresholds
+\* that the two-valued short arrays cannot (all arrays over Small of length <= 3 with a rational deviation have z scores +-1)
+ZExtra == { <<"f", <<R(0), R(1), R(1), R(4)>>>>, <<"f", <<R(4), R(1), R(0), R(1)>>>>, <<"i", <<R(1), R(0), R(4), R(1)>>>>, <<"f", <<R(1), MV, R(4), R(1), R(0)>>>> }
+CvaArrays == {a \in ArraysOf("f", Small) \cup ArraysOf("i", Small) : TwoDistinct(a)} \cup (IF LenA = 3 THEN ZExtra ELSE {})
 
 \* inputs that the list commands must reject: no input at all, arrays of different lengths
 A2 == <<"f", <<R(1), R(2)>>>>
@@ -90,6 +93,7 @@ Thresholds == IF Wide
 CatTables == << <<<<R(0), R(1), R(2)>>, <<Q(-1, 2), R(0), Q(1, 2)>>, R(1)>>,
                 <<<<R(2), R(-1)>>, <<R(5), R(-3)>>, R(9)>>,                      \* values outside [-1,1]
                 <<<<R(1)>>, <<Q(1, 4)>>, Q(-3, 4)>>,
+                <<<<R(100000), R(100001)>>, <<R(-1), Q(1, 2)>>, R(0)>>,
                 <<<<>>, <<>>, R(0)>>,
                 <<<<R(0), R(1)>>, <<R(1)>>, R(0)>>,                                \* MixedArrayLengths
                 <<<<R(1), R(1)>>, <<R(0), R(1)>>, R(0)>> >>                        \* DuplicateRawValues
@@ -197,7 +201,7 @@ OrderInvariant == done => \A e \in 1..Len(out) : Commutes(out[e][1]) =>
         IN Sem(out[e][1], pp, PermSeq(ins, pi)) = out[e][3]
 \* C05: permuting the cells of all inputs permutes the result identically (data-dependent commands included)
 Equivariant == done => \A e \in 1..Len(out) : IsOk(out[e][3]) =>
-    \A pi \in Perms(LenA) :
+    \A pi \in Perms(Len(Cells(ins[1]))) :      \* (the arrays of a case have one length; the extra z-score arrays are longer than LenA)
         Sem(out[e][1], out[e][2], [i \in 1..n |-> PermuteCells(ins[i], pi)]) = Ok(PermSeq(out[e][3][2], pi))
 
 \* C06: algebra of the fuzzy operators at this point
